@@ -24,6 +24,17 @@ AM = "automerge::automerge::Automerge"
 
 
 def run(ctx):
+    f = check_order(ctx)
+    # ---------------- N3: re-runs
+    C38.run(ctx)
+    C05.run(ctx)
+    ctx.level = "proof"
+    ctx.decides = ("OpId::cmp orders by counter, then actor index; the actor table is only ever extended by an insert at binary_search's Err(index) after re-numbering the stored ops, so index order is actor-id order on every replica; "
+                   "every delivery path applies a change once and only when its dependencies are present (C38 / C05 rules re-run).")
+    ctx.not_decided = "equality of the states two replicas reach from the same changes (merge arithmetic, RGA placement, counters, marks, conflict sets): runtime values."
+
+
+def check_order(ctx):
     ctx.rule("N1", "OpId::cmp: first comparison on field .0 (counter) of both operands, second on field .1 (actor index), combined by Ordering::then / then_with with the counter comparison as receiver")
     ctx.rule("N2", "who-may-write OpSet.actors + provenance: Vec::insert at the Err(index) of binary_search(actor); stored ops re-numbered first when the insertion is not at the end")
     f = ctx.facts()
@@ -128,10 +139,4 @@ def run(ctx):
     callers_am = {norm_fn(c).split("::{closure")[0] for c in cg.inn.get(AM + "::insert_actor", ())}
     ok = callers_os == {AM + "::insert_actor"} and callers_am == {AM + "::put_actor", AM + "::put_actor_ref"}
     ctx.ob("N2", "insert_actor|caller chain", ok, "", "OpSet::insert_actor <- Automerge::insert_actor <- put_actor / put_actor_ref" if ok else "insert_actor gained callers %s / %s" % (sorted(callers_os), sorted(callers_am)))
-    # ---------------- N3: re-runs
-    C38.run(ctx)
-    C05.run(ctx)
-    ctx.level = "proof"
-    ctx.decides = ("OpId::cmp orders by counter, then actor index; the actor table is only ever extended by an insert at binary_search's Err(index) after re-numbering the stored ops, so index order is actor-id order on every replica; "
-                   "every delivery path applies a change once and only when its dependencies are present (C38 / C05 rules re-run).")
-    ctx.not_decided = "equality of the states two replicas reach from the same changes (merge arithmetic, RGA placement, counters, marks, conflict sets): runtime values."
+    return f
